@@ -68,7 +68,7 @@ class Table:
         if len(args) == 4:
             for y in A.walk(args[2]):
                 if y["k"] == "CallExpr" and y.get("callee") == "boost::program_options::value":
-                    m = re.match(r"boost::program_options::value\((.*) \*\)$", y.get("callee_sig", ""))
+                    m = re.match(r"boost::program_options::value\((.*?) \*\)(?: -> .*)?$", y.get("callee_sig", ""))
                     A.require(m, "ProgramOptions: cannot read value type of %s" % name)
                     vtype = m.group(1)
                     a = A.strip(y["args"][0])
